@@ -112,6 +112,56 @@ def proj(n):
     return root[0]
 
 
+def to_cps(t):
+    """string-mode JSON tree -> code-point-mode JSON tree (pure re-encoding of names and spellings)."""
+    k = t[0]
+    if k == "Id":
+        return ["Id", [cps(x) for x in t[1]], cps(t[2])]
+    if k == "Attr":
+        return ["Attr", to_cps(t[1]), cps(t[2])]
+    if k == "Lit":
+        if t[1] == "String":
+            return t
+        return ["Lit", t[1], cps(str(t[2]))]
+    if k == "None":
+        return t
+    if k == "List":
+        return ["List", [to_cps(x) for x in t[1]]]
+    if k in ("Bin", "Cmp", "Bool"):
+        return [k, t[1], to_cps(t[2]), to_cps(t[3])]
+    if k == "Un":
+        return [k, t[1], to_cps(t[2])]
+    if k == "Call":
+        return [k, to_cps(t[1]), [to_cps(x) for x in t[2]]]
+    if k in ("Named", "Lam"):
+        return [k, to_cps(t[1]), to_cps(t[2])]
+    if k == "Coll":
+        return [k, to_cps(t[1]), t[2], to_cps(t[3])]
+    raise ValueError(t)
+
+
+def children(n):
+    """child nodes of a real AST node in the order of Ast.Sub (operator token nodes are not children there)."""
+    t = type(n)
+    if t is ast.Attribute:
+        return [n.owner]
+    if t is ast.List:
+        return list(n.val)
+    if t in (ast.BinOp, ast.Compare, ast.BoolOp):
+        return [n.left, n.right]
+    if t is ast.UnaryOp:
+        return [n.operand]
+    if t is ast.Call:
+        return [n.func] + list(n.args)
+    if t is ast.NamedParam:
+        return [n.name, n.param]
+    if t is ast.Lambda:
+        return [n.identifier, n.expression]
+    if t is ast.CollectionLambda:
+        return [n.owner] + ([] if n.lambda_ is None else [n.lambda_])
+    return []
+
+
 def flat(x):
     """Iterative pre-order serialisation of a nested JSON value (comparison / hashing of very deep trees)."""
     out = []
